@@ -75,9 +75,6 @@ impl Outcome {
     pub fn rv_verdict(&self) -> Option<String> {
         self.rv.as_ref().map(|r| match r { Ok(t) => format!("(ok {})", t.join(" ")), Err(v) => format!("(viol {})", quote(v)) })
     }
-    pub fn first_class(&self) -> Option<String> {
-        self.viols.first().or(self.rv.as_ref().and_then(|r| r.as_ref().err())).map(|v| class_of(v))
-    }
 }
 pub fn class_of(v: &str) -> String { v.split_whitespace().next().unwrap_or("").trim_start_matches("class=").to_string() }
 
@@ -617,10 +614,62 @@ pub const DEPTH_IN_SCOPE: usize = 1000;
 // minimisation and the witness corpus
 // ------------------------------------------------------------------------------------------------
 
-/// greedy reduction: delete chunks of lines, then of whitespace-separated words, then single bytes while `fails` holds
+/// structure-aware reduction on the token level (texts that are valid UTF-8): delete whole declarations, replace the
+/// contents of a bracket group by `0` or by nothing, delete a group, delete token chunks - while `fails` holds
+fn minimise_tokens(text: &str, fails: &mut dyn FnMut(&[u8]) -> bool, budget: &mut usize) -> String {
+    let mut ts = tokenize(text);
+    let render = |ts: &[String]| untokenize(ts);
+    if !fails(render(&ts).as_bytes()) { return text.to_string(); }   // comments / layout matter: leave it to the byte level
+    let closes = |o: &str| match o { "(" => ")", "{" => "}", "[" => "]", _ => "" };
+    loop {
+        let mut progress = false;
+        // candidates, biggest first
+        let mut cands: Vec<(usize, usize, Vec<String>)> = Vec::new();   // replace ts[a..b] by the given tokens
+        let decl_starts: Vec<usize> = ts.iter().enumerate().filter(|(_, t)| ["def", "data", "codata"].contains(&t.as_str())).map(|(i, _)| i).chain([ts.len()]).collect();
+        for w in decl_starts.windows(2) { cands.push((w[0], w[1], vec![])); }
+        let mut stack: Vec<usize> = Vec::new();
+        for i in 0..ts.len() {
+            let t = ts[i].as_str();
+            if !closes(t).is_empty() { stack.push(i); }
+            else if [")", "}", "]"].contains(&t) {
+                if let Some(o) = stack.pop() { if closes(&ts[o]) == t {
+                    if i > o + 1 { cands.push((o + 1, i, vec!["0".into()])); cands.push((o + 1, i, vec![])); }
+                    cands.push((o, i + 1, vec![])); cands.push((o, i + 1, vec!["0".into()]));
+                } }
+            }
+        }
+        // statement-like pieces: `let .. ;`  `print_i64 ( .. ) ;`
+        for i in 0..ts.len() { if ts[i] == ";" { let st = ts[..i].iter().rposition(|t| ["let", "print_i64", "println_i64", "{", ";"].contains(&t.as_str())).map(|p| if ts[p] == "{" || ts[p] == ";" { p + 1 } else { p }).unwrap_or(0); if st < i { cands.push((st, i + 1, vec![])); } } }
+        cands.sort_by_key(|(a, b, r)| std::cmp::Reverse((b - a) as isize - r.len() as isize));
+        for (a, b, r) in cands {
+            if *budget == 0 { return render(&ts); }
+            if b > ts.len() || a >= b || (b - a) <= r.len() { continue; }
+            let cand: Vec<String> = ts[..a].iter().cloned().chain(r.iter().cloned()).chain(ts[b..].iter().cloned()).collect();
+            *budget -= 1;
+            if fails(render(&cand).as_bytes()) { ts = cand; progress = true; break; }
+        }
+        if !progress { break; }
+    }
+    // single tokens
+    let mut i = 0;
+    while i < ts.len() && *budget > 0 {
+        let cand: Vec<String> = ts[..i].iter().cloned().chain(ts[i + 1..].iter().cloned()).collect();
+        *budget -= 1;
+        if fails(render(&cand).as_bytes()) { ts = cand; } else { i += 1; }
+    }
+    render(&ts)
+}
+
+/// reduction of a failing input: token level first (UTF-8 texts), then greedy deletion of chunks of lines, of
+/// whitespace-separated words and of single bytes while `fails` holds
 pub fn minimise(input: &[u8], fails: &mut dyn FnMut(&[u8]) -> bool, budget: usize) -> Vec<u8> {
+    let mut budget_left = budget;
     let mut best = input.to_vec();
-    let mut evals = 0usize;
+    if let Ok(t) = std::str::from_utf8(input) {
+        let m = minimise_tokens(t, fails, &mut budget_left);
+        if m.len() < best.len() { best = m.into_bytes(); }
+    }
+    let mut evals = budget - budget_left;
     for level in 0..3 {
         let split = |b: &[u8]| -> Vec<Vec<u8>> {
             match level {
@@ -678,6 +727,7 @@ pub fn cmd_robust(seed: u64, n: usize, out: &mut dyn Write, args: &[String]) {
     let nodeep = args.iter().any(|a| a == "nodeep");
     let nokeep = args.iter().any(|a| a == "nokeep");
     let only: Option<String> = args.iter().find_map(|a| a.strip_prefix("only=").map(|s| s.to_string()));
+    if n == 0 { return; }   // a step switched off in this tier
     let root = pipe::verif_root();
     let repo = crate::consts::repo_root().to_string_lossy().to_string();
     let work = PathBuf::from(format!("{root}/.cache/robust/{seed}-{}", std::process::id()));
@@ -750,34 +800,18 @@ pub fn cmd_robust(seed: u64, n: usize, out: &mut dyn Write, args: &[String]) {
     let want_cli = (n / 25).max(100);
     let cli_every = (total / want_cli.max(1)).max(1);
 
-    // ---- the deep stream first, several children at a time
+    // ---- the deep stream runs in worker threads (several children at a time) while the other streams are processed here
     let child_limit: u64 = if thorough { 120_000 } else { 20_000 };
-    let mut deep_results: BTreeMap<usize, DeepRes> = BTreeMap::new();
-    {
-        let todo: Vec<usize> = inputs.iter().enumerate().filter(|(_, i)| i.depth.is_some()).map(|(k, _)| k).collect();
-        let next = std::sync::atomic::AtomicUsize::new(0);
-        let results = std::sync::Mutex::new(Vec::new());
-        let workers = std::thread::available_parallelism().map(|x| x.get()).unwrap_or(4).min(8);
-        std::thread::scope(|sc| {
-            for w in 0..workers {
-                let (todo, next, results, inputs, work, cli_release) = (&todo, &next, &results, &inputs, &work, &cli_release);
-                sc.spawn(move || loop {
-                    let j = next.fetch_add(1, std::sync::atomic::Ordering::SeqCst);
-                    if j >= todo.len() { break; }
-                    let k = todo[j];
-                    let r = run_deep(&work.join(format!("w{w}")), k, &inputs[k], cli_release.as_ref(), child_limit);
-                    results.lock().unwrap().push((k, r));
-                });
-            }
-        });
-        for (k, r) in results.into_inner().unwrap() { deep_results.insert(k, r); }
-    }
+    let todo: Vec<usize> = inputs.iter().enumerate().filter(|(_, i)| i.depth.is_some()).map(|(k, _)| k).collect();
+    let next = std::sync::atomic::AtomicUsize::new(0);
+    let results: std::sync::Mutex<Vec<(usize, DeepRes)>> = std::sync::Mutex::new(Vec::new());
+    let workers = std::thread::available_parallelism().map(|x| x.get()).unwrap_or(4).clamp(2, 9) - 1;
 
     // ---- run
     let mut seen: HashSet<u64> = HashSet::new();
     let mut deep_max: BTreeMap<String, (usize, Option<usize>)> = BTreeMap::new();   // family -> (largest depth that works, smallest that exhausts the stack)
     let mut cli_count = 0usize;
-    for (k, i) in inputs.iter().enumerate() {
+    let mut handle = |k: usize, i: &Input, deep: Option<DeepRes>| {
         let h = hash64(&i.bytes);
         let dup = !seen.insert(h);
         let head = format!("({} {} h{:08x})", i.stream, quote(&i.desc), h as u32);
@@ -789,7 +823,7 @@ pub fn cmd_robust(seed: u64, n: usize, out: &mut dyn Write, args: &[String]) {
         let mut inproc: Option<Outcome> = None;
         if let Some(d) = i.depth {
             let fam = i.desc.split_whitespace().next().unwrap_or("").to_string();
-            let r = deep_results.remove(&k).unwrap_or_default();
+            let r = deep.unwrap_or_default();
             let e = deep_max.entry(fam).or_insert((0, None));
             if r.exhausted { if e.1.is_none_or(|x| d < x) { e.1 = Some(d); } } else if d > e.0 { e.0 = d; }
             if r.cli { cli_count += 1; }
@@ -819,15 +853,15 @@ pub fn cmd_robust(seed: u64, n: usize, out: &mut dyn Write, args: &[String]) {
                 let how = format!("harness robust {seed} {n}, case {k} ({} {})", i.stream, i.desc);
                 saved = if i.depth.is_some() || class.starts_with("cli-") || class.contains("-cli-") || class == "stack-exhaustion" || class == "timeout" {
                     match (&cli, class.contains("cli")) {
-                        (Some(c), true) if i.depth.is_none() => { let mut f = |b: &[u8]| { let (_, v, _) = run_cli(c, 999_999, b, None, None, child_limit); v.iter().any(|x| class_of(x) == class) }; keep_witness(&v0, &i.bytes, &how, Some(&mut f)) }
+                        (Some(c), true) if i.depth.is_none() => { let wn = witness_name(&v0); let mut f = |b: &[u8]| { let (_, v, _) = run_cli(c, 999_999, b, None, None, child_limit); v.iter().any(|x| witness_name(x) == wn) }; keep_witness(&v0, &i.bytes, &how, Some(&mut f)) }
                         _ => keep_witness(&v0, &i.bytes, &how, None),
                     }
-                } else { let mut f = |b: &[u8]| std::str::from_utf8(b).ok().map(|t| pipeline(t, true).viols.iter().any(|x| class_of(x) == class)).unwrap_or(false); keep_witness(&v0, &i.bytes, &how, Some(&mut f)) };
+                } else { let wn = witness_name(&v0); let mut f = |b: &[u8]| std::str::from_utf8(b).ok().map(|t| pipeline(t, true).viols.iter().any(|x| witness_name(x) == wn)).unwrap_or(false); keep_witness(&v0, &i.bytes, &how, Some(&mut f)) };
             } else if let Some(Err(v)) = &rv {
-                let class = class_of(v);
+                
                 let how = format!("harness robust {seed} {n}, case {k} ({} {})", i.stream, i.desc);
                 if i.depth.is_none() && text.is_some() {
-                    let mut f = |b: &[u8]| std::str::from_utf8(b).ok().map(|t| { let o = pipeline(t, false); o.viols.is_empty() && matches!(&o.rv, Some(Err(x)) if class_of(x) == class) }).unwrap_or(false);
+                    let wn = witness_name(v); let mut f = |b: &[u8]| std::str::from_utf8(b).ok().map(|t| { let o = pipeline(t, false); o.viols.is_empty() && matches!(&o.rv, Some(Err(x)) if witness_name(x) == wn) }).unwrap_or(false);
                     keep_witness(v, &i.bytes, &how, Some(&mut f));
                 }
             }
@@ -838,7 +872,23 @@ pub fn cmd_robust(seed: u64, n: usize, out: &mut dyn Write, args: &[String]) {
             let v = match r { Ok(t) => format!("(ok {} stream:{}-rv {})", if dup { "" } else { "nt" }, i.stream, t.join(" ")), Err(v) => format!("(viol {})", quote(&v)) };
             writeln!(out, "(case {k}rv ({}-rv {} h{:08x}) {v})", i.stream, quote(&i.desc), h as u32).unwrap();
         }
-    }
+    };
+    std::thread::scope(|sc| {
+        for w in 0..workers {
+            let (todo, next, results, inputs, work, cli_release) = (&todo, &next, &results, &inputs, &work, &cli_release);
+            sc.spawn(move || loop {
+                let j = next.fetch_add(1, std::sync::atomic::Ordering::SeqCst);
+                if j >= todo.len() { break; }
+                let k = todo[j];
+                let r = run_deep(&work.join(format!("w{w}")), k, &inputs[k], cli_release.as_ref(), child_limit);
+                results.lock().unwrap().push((k, r));
+            });
+        }
+        for (k, i) in inputs.iter().enumerate() { if i.depth.is_none() { handle(k, i, None); } }
+    });
+    let mut deep_results: BTreeMap<usize, DeepRes> = results.into_inner().unwrap().into_iter().collect();
+    for k in &todo { let r = deep_results.remove(k); handle(*k, &inputs[*k], r); }
+    drop(handle);
     // ---- summary cases
     for (fam, (okd, bad)) in &deep_max {
         writeln!(out, "(case deep-{fam} (deep-summary {} h0) (ok stream:deep-summary largest-working-depth:{okd} {}))", quote(fam), bad.map(|b| format!("first-exhausted-depth:{b}")).unwrap_or("never-exhausted".into())).unwrap();
